@@ -1694,14 +1694,14 @@ const fn part(name: &'static str, quick: u32, thorough: u32) -> PartCfg {
     PartCfg { name, genome_len: 96, cases_quick: quick, cases_thorough: thorough, panic: PanicPolicy::Count }
 }
 const PARTS: [(Pair, PartCfg); 8] = [
-    (Pair::DftBulk, part("dft-bulk", 3200, 320_000)),
-    (Pair::Wrapper, part("wrapper", 800, 80_000)),
-    (Pair::EpcIonFree, part("epcsaft-ion-free", 3000, 240_000)),
-    (Pair::VrqVsVrMie, part("vrq-fh0-vs-vrmie", 1500, 100_000)),
-    (Pair::AssocSplit, part("assoc-split", 1200, 120_000)),
-    (Pair::AssocForced, part("assoc-forced-cross", 1500, 100_000)),
-    (Pair::HomoGc, part("homo-gc", 1500, 100_000)),
-    (Pair::PengRobinson, part("peng-robinson", 2000, 150_000)),
+    (Pair::DftBulk, part("dft-bulk", 9600, 320_000)),
+    (Pair::Wrapper, part("wrapper", 2400, 80_000)),
+    (Pair::EpcIonFree, part("epcsaft-ion-free", 9000, 240_000)),
+    (Pair::VrqVsVrMie, part("vrq-fh0-vs-vrmie", 4500, 100_000)),
+    (Pair::AssocSplit, part("assoc-split", 3600, 120_000)),
+    (Pair::AssocForced, part("assoc-forced-cross", 4500, 100_000)),
+    (Pair::HomoGc, part("homo-gc", 4500, 100_000)),
+    (Pair::PengRobinson, part("peng-robinson", 6000, 150_000)),
 ];
 
 pub fn run(ctx: &Ctx) {
